@@ -56,7 +56,7 @@ func (vfs *OrefaFS) Chdir(dir string) error {
 
 	verifYield(&vfs.mu, false)
 	vfs.mu.RLock()
-	nd, ok := vfs.nodes[absPath]
+	nd, ok := vfs.nodes[vfs.absPath(dir)]
 	vfs.mu.RUnlock()
 
 	if !ok {
@@ -98,7 +98,7 @@ func (vfs *OrefaFS) Chdir(dir string) error {
 func (vfs *OrefaFS) Chmod(name string, mode fs.FileMode) error {
 	const op = "chmod"
 
-	absPath, _ := vfs.Abs(name)
+	absPath := vfs.absPath(name)
 
 	verifYield(&vfs.mu, false)
 	vfs.mu.RLock()
@@ -131,7 +131,7 @@ func (vfs *OrefaFS) Chown(name string, uid, gid int) error {
 		return &fs.PathError{Op: op, Path: name, Err: vfs.err.OpNotPermitted}
 	}
 
-	absPath, _ := vfs.Abs(name)
+	absPath := vfs.absPath(name)
 
 	verifYield(&vfs.mu, false)
 	vfs.mu.RLock()
@@ -159,7 +159,7 @@ func (vfs *OrefaFS) Chown(name string, uid, gid int) error {
 func (vfs *OrefaFS) Chtimes(name string, atime, mtime time.Time) error {
 	const op = "chtimes"
 
-	absPath, _ := vfs.Abs(name)
+	absPath := vfs.absPath(name)
 
 	verifYield(&vfs.mu, false)
 	vfs.mu.RLock()
@@ -311,7 +311,7 @@ func (vfs *OrefaFS) Lchown(name string, uid, gid int) error {
 		return &fs.PathError{Op: op, Path: name, Err: vfs.err.OpNotPermitted}
 	}
 
-	absPath, _ := vfs.Abs(name)
+	absPath := vfs.absPath(name)
 
 	verifYield(&vfs.mu, false)
 	vfs.mu.RLock()
@@ -335,10 +335,10 @@ func (vfs *OrefaFS) Lchown(name string, uid, gid int) error {
 func (vfs *OrefaFS) Link(oldname, newname string) error {
 	const op = "link"
 
-	oAbsPath, _ := vfs.Abs(oldname)
-	nAbsPath, _ := vfs.Abs(newname)
+	oAbsPath := vfs.absPath(oldname)
+	nAbsPath := vfs.absPath(newname)
 
-	nDirName, nFileName := avfs.SplitAbs(vfs, nAbsPath)
+	nDirName, nFileName := vfs.splitAbs(nAbsPath)
 
 	verifYield(&vfs.mu, false)
 	vfs.mu.RLock()
@@ -459,8 +459,8 @@ func (vfs *OrefaFS) Mkdir(name string, perm fs.FileMode) error {
 		return &fs.PathError{Op: op, Path: "", Err: vfs.err.NoSuchDir}
 	}
 
-	absPath, _ := vfs.Abs(name)
-	dirName, fileName := avfs.SplitAbs(vfs, absPath)
+	absPath := vfs.absPath(name)
+	dirName, fileName := vfs.splitAbs(absPath)
 
 	verifYield(&vfs.mu, true)
 	vfs.mu.Lock()
@@ -505,7 +505,7 @@ func (vfs *OrefaFS) Mkdir(name string, perm fs.FileMode) error {
 func (vfs *OrefaFS) MkdirAll(path string, perm fs.FileMode) error {
 	const op = "mkdir"
 
-	absPath, _ := vfs.Abs(path)
+	absPath := vfs.absPath(path)
 
 	verifYield(&vfs.mu, true)
 	vfs.mu.Lock()
@@ -583,8 +583,8 @@ func (vfs *OrefaFS) OpenFile(name string, flag int, perm fs.FileMode) (avfs.File
 	at := int64(0)
 	om := avfs.ToOpenMode(flag)
 
-	absPath, _ := vfs.Abs(name)
-	dirName, fileName := avfs.SplitAbs(vfs, absPath)
+	absPath := vfs.absPath(name)
+	dirName, fileName := vfs.splitAbs(absPath)
 
 	verifYield(&vfs.mu, false)
 	vfs.mu.RLock()
@@ -908,8 +908,8 @@ func (vfs *OrefaFS) Stat(path string) (fs.FileInfo, error) {
 
 // stat is the internal function used by Stat and Lstat.
 func (vfs *OrefaFS) stat(path, op string) (fs.FileInfo, error) {
-	absPath, _ := vfs.Abs(path)
-	dirName, fileName := avfs.SplitAbs(vfs, absPath)
+	absPath := vfs.absPath(path)
+	dirName, fileName := vfs.splitAbs(absPath)
 
 	verifYield(&vfs.mu, false)
 	vfs.mu.RLock()
@@ -989,7 +989,7 @@ func (vfs *OrefaFS) ToSysStat(info fs.FileInfo) avfs.SysStater {
 func (vfs *OrefaFS) Truncate(name string, size int64) error {
 	op := "truncate"
 
-	absPath, _ := vfs.Abs(name)
+	absPath := vfs.absPath(name)
 
 	verifYield(&vfs.mu, false)
 	vfs.mu.RLock()
